@@ -369,7 +369,7 @@ Proof.
     { apply no_star_cons; [reflexivity|]. apply no_star_app; [exact Hn|].
       apply no_star_cons; [reflexivity|apply no_star_nil]. }
     split; [|split].
-    + cbn [depth]. rewrite depth_app. cbn. lia.
+    + cbn [depth]. rewrite depth_app. cbn [depth bump]. lia.
     + intros _. exact Hns.
     + now apply star_ok_no_star.
   - intros b ts t _ H. exact H.
@@ -398,3 +398,262 @@ Proof.
   apply parse_toks_gen_sound in E. apply star_only_terminal_lemma in E. congruence.
 Qed.
 Close Scope Z_scope.
+
+(* ================================================================== Part 4: meaning *)
+Section GraphInd.
+  Variable P : graph -> Prop.
+  Hypothesis H : forall n cs, Forall P cs -> P (G n cs).
+  Fixpoint graph_ind' (g : graph) : P g :=
+    match g with
+    | G n cs => H n cs ((fix go (l : list graph) : Forall P l :=
+                           match l with
+                           | [] => Forall_nil P
+                           | x :: r => Forall_cons x (graph_ind' x) (go r)
+                           end) cs)
+    end.
+End GraphInd.
+
+Definition prod (A B : list (list node)) : list (list node) := flat_map (fun p => map (app p) B) A.
+Definition cat (A Q : list (list node)) : list (list node) := match Q with [] => A | _ => prod A Q end.
+
+Lemma graph_paths_nonempty g : graph_paths g <> [].
+Proof.
+  induction g as [n cs IH] using graph_ind'. destruct cs as [|c cs]; cbn; [discriminate|].
+  inversion IH; subst. destruct (graph_paths c) eqn:E; [contradiction|]. cbn. discriminate.
+Qed.
+
+Lemma flat_gp_nil br : flat_map graph_paths br = [] -> br = [].
+Proof.
+  destruct br as [|g r]; [reflexivity|]. cbn. intros H. apply app_eq_nil in H. destruct H as [H _].
+  now apply graph_paths_nonempty in H.
+Qed.
+
+Lemma prod_nonempty A B : A <> [] -> B <> [] -> prod A B <> [].
+Proof. destruct A as [|a A]; [contradiction|]. destruct B as [|b B]; [contradiction|]. intros _ _. cbn. discriminate. Qed.
+
+Lemma paths_nonempty e : paths e <> [].
+Proof.
+  induction e; cbn.
+  - discriminate.
+  - now apply prod_nonempty.
+  - intros H. apply app_eq_nil in H. destruct H. contradiction.
+Qed.
+
+Lemma prod_app A A' B : prod (A ++ A') B = prod A B ++ prod A' B.
+Proof. unfold prod. apply flat_map_app. Qed.
+
+Lemma prod_cons a A B : prod (a :: A) B = map (app a) B ++ prod A B.
+Proof. reflexivity. Qed.
+
+Lemma prod_map_app a B Q : prod (map (app a) B) Q = map (app a) (prod B Q).
+Proof.
+  induction B as [|b B IH]; [reflexivity|]. cbn [map]. rewrite !prod_cons.
+  rewrite IH, map_app, map_map. f_equal. apply map_ext. intros q. now rewrite app_assoc.
+Qed.
+
+Lemma prod_assoc A B Q : prod (prod A B) Q = prod A (prod B Q).
+Proof.
+  induction A as [|a A IH]; [reflexivity|]. rewrite !prod_cons.
+  rewrite prod_app, IH, prod_map_app. reflexivity.
+Qed.
+
+Lemma cat_assoc A B Q : B <> [] -> cat (prod A B) Q = cat A (cat B Q).
+Proof.
+  intros HB. destruct Q as [|q Q].
+  - cbn [cat]. destruct B; [contradiction|reflexivity].
+  - cbn [cat]. rewrite prod_assoc. destruct (prod B (q :: Q)) eqn:E; [|reflexivity].
+    exfalso. revert E. apply prod_nonempty; [exact HB|discriminate].
+Qed.
+
+Lemma cat_app A A' Q : cat (A ++ A') Q = cat A Q ++ cat A' Q.
+Proof. destruct Q; cbn [cat]; [reflexivity|apply prod_app]. Qed.
+
+Lemma create_graphs_paths e : forall br gs,
+  create_graphs e br = Some gs -> flat_map graph_paths gs = cat (paths e) (flat_map graph_paths br).
+Proof.
+  induction e as [n|a IHa b IHb|a IHa b IHb]; intros br gs H; cbn [create_graphs paths] in *.
+  - destruct (distinctb br); [|discriminate]. inversion H; subst. cbn [flat_map]. rewrite app_nil_r.
+    destruct br as [|c cs]; [reflexivity|].
+    destruct (flat_map graph_paths (c :: cs)) as [|q Q] eqn:E.
+    + apply flat_gp_nil in E. discriminate.
+    + cbn [graph_paths]. rewrite E. cbn [cat prod flat_map]. rewrite app_nil_r. reflexivity.
+  - destruct (create_graphs b br) as [bs|] eqn:Eb; [|discriminate].
+    rewrite (IHa _ _ H), (IHb _ _ Eb). symmetry. apply cat_assoc. apply paths_nonempty.
+  - destruct (create_graphs a br) as [l|] eqn:Ea; [|discriminate].
+    destruct (create_graphs b br) as [r|] eqn:Eb; [|discriminate]. inversion H; subst.
+    rewrite flat_map_app, (IHa _ _ Ea), (IHb _ _ Eb), cat_app. reflexivity.
+Qed.
+
+Lemma map_prod (f : matcher * link -> node) A B :
+  map (map f) (flat_map (fun p => map (app p) B) A) = prod (map (map f) A) (map (map f) B).
+Proof.
+  induction A as [|a A IH]; [reflexivity|]. cbn [flat_map map]. rewrite prod_cons.
+  rewrite map_app, IH. f_equal. rewrite !map_map. apply map_ext. intros q. apply map_app.
+Qed.
+
+Lemma handle_paths t : forall l, paths (handle_tree t (notify_of l)) = doc_paths_l t l.
+Proof.
+  induction t as [w| |w| |a IHa c b IHb|a IHa b IHb]; intros l; try reflexivity.
+  - cbn [handle_tree paths]. unfold doc_paths_l. cbn [raw_paths]. rewrite map_prod.
+    replace (conn_notifies c) with (notify_of (LConn c)) by (destruct c; reflexivity).
+    rewrite IHa, IHb. reflexivity.
+  - cbn [handle_tree paths]. unfold doc_paths_l. cbn [raw_paths]. rewrite map_app.
+    rewrite IHa, IHb. reflexivity.
+Qed.
+
+(* what compile_str returns denotes exactly the documented paths, notify flags included *)
+Lemma meaning_lemma t gs : compile_tree t = Graphs gs -> flat_map graph_paths gs = doc_paths t.
+Proof.
+  unfold compile_tree. destruct (create_graphs (handle_tree t true) []) as [g|] eqn:E; [|discriminate].
+  intros H. inversion H; subst. rewrite (create_graphs_paths _ _ _ E). cbn [flat_map cat].
+  apply (handle_paths t LEnd).
+Qed.
+
+(* every path has the shape  (m1, connector) ... (mk-1, connector) (mk, end): so notification is enabled on an
+   element iff it is last or followed by "." *)
+Lemma raw_paths_shape t : forall l p, In p (raw_paths t l) ->
+  exists q m, p = q ++ [(m, l)] /\ Forall (fun ml => exists c, snd ml = LConn c) q.
+Proof.
+  induction t as [w| |w| |a IHa c b IHb|a IHa b IHb]; intros l p Hp; cbn [raw_paths] in Hp.
+  - destruct Hp as [<-|[]]. exists [], (MTrait w). split; [reflexivity|constructor].
+  - destruct Hp as [<-|[<-|[<-|[<-|[]]]]]; eexists [], _; (split; [reflexivity|constructor]).
+  - destruct Hp as [<-|[]]. exists [], (MMeta w). split; [reflexivity|constructor].
+  - destruct Hp as [<-|[]]. exists [], MAnyTrait. split; [reflexivity|constructor].
+  - apply in_flat_map in Hp. destruct Hp as (pa & Ha & Hp). apply in_map_iff in Hp. destruct Hp as (pb & <- & Hb).
+    destruct (IHa _ _ Ha) as (qa & ma & -> & Fa). destruct (IHb _ _ Hb) as (qb & mb & -> & Fb).
+    exists ((qa ++ [(ma, LConn c)]) ++ qb), mb. split; [now rewrite app_assoc|].
+    apply Forall_app. split; [|exact Fb]. apply Forall_app. split; [exact Fa|]. constructor; [|constructor].
+    now exists c.
+  - apply in_app_or in Hp. destruct Hp; eauto.
+Qed.
+
+Lemma notify_iff_last_or_dot_lemma t p : In p (raw_paths t LEnd) ->
+  exists q m, p = q ++ [(m, LEnd)] /\
+    notify_of LEnd = true /\
+    Forall (fun ml => exists c, snd ml = LConn c /\ notify_of (snd ml) = conn_notifies c) q.
+Proof.
+  intros H. destruct (raw_paths_shape _ _ _ H) as (q & m & -> & F). exists q, m. repeat split.
+  eapply Forall_impl; [|exact F]. intros ml (c & Hc). exists c. split; [exact Hc|]. rewrite Hc. now destruct c.
+Qed.
+
+Lemma items_four_way n :
+  paths (handle_tree TItems n) = [[NNamed items_word n true]; [NDict n true]; [NList n true]; [NSet n true]]
+  /\ raw_paths TItems LEnd = [[(MItemsTrait, LEnd)]; [(MDictItems, LEnd)]; [(MListItems, LEnd)]; [(MSetItems, LEnd)]].
+Proof. split; reflexivity. Qed.
+
+(* ================================================================== Part 5: equal patterns *)
+Lemma word_eqb_refl w : word_eqb w w = true.
+Proof. induction w as [|x w IH]; [reflexivity|]. cbn. now rewrite Z.eqb_refl. Qed.
+Lemma node_eqb_refl n : node_eqb n n = true.
+Proof.
+  destruct n as [w a b|a f|a b|a b|a b]; cbn; rewrite ?word_eqb_refl, ?eqb_reflx; try reflexivity.
+  destruct f; cbn; [reflexivity|apply word_eqb_refl].
+Qed.
+
+Lemma graph_eqb_refl g : graph_eqb g g = true.
+Proof.
+  induction g as [n cs IH] using graph_ind'. cbn [graph_eqb]. rewrite node_eqb_refl. cbn [andb].
+  assert (forallb (fun x => existsb (fun y => graph_eqb x y) cs) cs = true) as ->.
+  { apply forallb_forall. intros x Hx. apply existsb_exists. exists x. split; [exact Hx|].
+    rewrite Forall_forall in IH. now apply IH. }
+  apply forallb_forall. intros x Hx. apply existsb_exists. exists x. split; [exact Hx|].
+  rewrite Forall_forall in IH. now apply IH.
+Qed.
+
+Lemma graphs_eqb_refl gs : list_eqb graph_eqb gs gs = true.
+Proof. induction gs as [|g gs IH]; [reflexivity|]. cbn. now rewrite graph_eqb_refl. Qed.
+
+Definition outcome_same (a b : outcome) : bool :=
+  match a, b with
+  | Rejected, Rejected | CompileError, CompileError | Crashed, Crashed => true
+  | Graphs x, Graphs y => list_eqb graph_eqb x y
+  | _, _ => false
+  end.
+
+(* the same text always compiles to equal patterns (ObserverGraph.__eq__), so removal by text matches registration *)
+Lemma parse_deterministic_lemma s1 s2 : s1 = s2 -> outcome_same (compile_str s1) (compile_str s2) = true.
+Proof. intros ->. destruct (compile_str s2); try reflexivity. apply graphs_eqb_refl. Qed.
+
+(* then() and | are associative on the compiled graphs, literally *)
+Lemma series_assoc a b c br :
+  create_graphs (ESeries (ESeries a b) c) br = create_graphs (ESeries a (ESeries b c)) br.
+Proof. cbn [create_graphs]. destruct (create_graphs c br); [|reflexivity]. reflexivity. Qed.
+
+Lemma par_assoc a b c br :
+  create_graphs (EPar (EPar a b) c) br = create_graphs (EPar a (EPar b c)) br.
+Proof.
+  cbn [create_graphs]. destruct (create_graphs a br); [|reflexivity].
+  destruct (create_graphs b br); [|reflexivity]. destruct (create_graphs c br); [|reflexivity].
+  now rewrite app_assoc.
+Qed.
+
+(* regrouping by brackets: "x.y.z" = "x.[y.z]", "x,y,z" = "x,[y,z]", whatever the connectors and the position *)
+Lemma regroup_series x c1 y c2 z n br :
+  create_graphs (handle_tree (TSeries (TSeries x c1 y) c2 z) n) br =
+  create_graphs (handle_tree (TSeries x c1 (TSeries y c2 z)) n) br.
+Proof. cbn [handle_tree]. apply series_assoc. Qed.
+
+Lemma regroup_par x y z n br :
+  create_graphs (handle_tree (TPar (TPar x y) z) n) br = create_graphs (handle_tree (TPar x (TPar y z)) n) br.
+Proof. cbn [handle_tree]. apply par_assoc. Qed.
+
+(* redundant brackets around a "*"-free expression leave no trace: same tree *)
+Lemma brackets_same_tree ts t :
+  parse_toks ts = Some t -> has_any t = false -> parse_toks (LBR :: ts ++ [RBR]) = Some t.
+Proof.
+  intros H Ha. apply parse_toks_gen_sound in H. apply parse_toks_gen_complete.
+  apply Dp_one, Ds_one, De_br. cbn [andb]. now apply (proj2 (proj2 (demote_mut false)) _ _ _ H).
+Qed.
+
+(* ---------- whitespace ---------- *)
+Definition is_symb (x : chr) : bool := match sym_of x with Some _ => true | None => false end.
+
+Lemma flush_none_id (o : option (list tok)) : option_map (flush None) o = o.
+Proof. destruct o; reflexivity. Qed.
+
+Lemma lex_ws_ws cur r : lex_go cur (CWs :: CWs :: r) = lex_go cur (CWs :: r).
+Proof. cbn [lex_go]. now rewrite flush_none_id. Qed.
+
+Lemma lex_ws_sym cur x r : is_symb x = true -> lex_go cur (CWs :: x :: r) = lex_go cur (x :: r).
+Proof.
+  intros Hx. destruct x; try discriminate; cbn [lex_go sym_of];
+    destruct (lex_go None r); cbn; destruct cur; reflexivity.
+Qed.
+
+Lemma lex_sym_ws cur x r : is_symb x = true -> lex_go cur (x :: CWs :: r) = lex_go cur (x :: r).
+Proof.
+  intros Hx. destruct x; try discriminate; cbn [lex_go sym_of]; now rewrite flush_none_id.
+Qed.
+
+Lemma lex_ws_end s : forall cur, lex_go cur (s ++ [CWs]) = lex_go cur s.
+Proof.
+  induction s as [|x s IH]; intros cur; [reflexivity|].
+  destruct x; cbn [app lex_go sym_of]; rewrite ?IH; try reflexivity.
+  destruct cur; [apply IH|reflexivity].
+Qed.
+
+Lemma lex_context a b : (forall cur, lex_go cur a = lex_go cur b) ->
+  forall pre cur, lex_go cur (pre ++ a) = lex_go cur (pre ++ b).
+Proof.
+  intros H. induction pre as [|x pre IH]; intros cur; [apply H|].
+  destruct x; cbn [app lex_go sym_of]; rewrite ?IH; try reflexivity.
+  destruct cur; [apply IH|reflexivity].
+Qed.
+
+Lemma compile_lex s1 s2 : lex s1 = lex s2 -> compile_str s1 = compile_str s2.
+Proof. unfold compile_str, parse. now intros ->. Qed.
+
+Lemma whitespace_lemma :
+  (forall pre x r, is_symb x = true -> compile_str (pre ++ CWs :: x :: r) = compile_str (pre ++ x :: r)) /\
+  (forall pre x r, is_symb x = true -> compile_str (pre ++ x :: CWs :: r) = compile_str (pre ++ x :: r)) /\
+  (forall pre r, compile_str (pre ++ CWs :: CWs :: r) = compile_str (pre ++ CWs :: r)) /\
+  (forall s, compile_str (CWs :: s) = compile_str s) /\
+  (forall s, compile_str (s ++ [CWs]) = compile_str s).
+Proof.
+  repeat split; intros; apply compile_lex; unfold lex.
+  - apply lex_context. intros cur. now apply lex_ws_sym.
+  - apply lex_context. intros cur. now apply lex_sym_ws.
+  - apply lex_context. intros cur. apply lex_ws_ws.
+  - cbn [lex_go]. apply flush_none_id.
+  - apply lex_ws_end.
+Qed.
